@@ -579,7 +579,11 @@ func flushDischargeRule(o *Ob) {
 	}
 	if o.Check(nfc != nil, "run-nf", "the flush callback no longer calls the notify function", nil) {
 		for _, rs := range e.ResultStores(rl, 0) {
-			o.Check(e.X(rl, rs.Val) == e.X(rl, nfc.(*ssa.Call)), "run-nf-result", "the flush callback must return the notify function's verdict", rs.Instr)
+			// the verdict itself, or the constant it stands for under the test of the verdict
+			nx := e.X(rl, nfc.(*ssa.Call))
+			v := e.X(rl, rs.Val)
+			okv := v == nx || v == "true" && e.OnlyUnder(rs.Instr, L(nx, true)) || v == "false" && e.OnlyUnder(rs.Instr, L(nx, false))
+			o.Check(okv, "run-nf-result", "the flush callback must return the notify function's verdict, returns "+clip(v), rs.Instr)
 		}
 		o.Check(e.Arg(nfc.(ssa.CallInstruction), 1) == "p0", "run-nf-arg", "the notify function must get the flushed batch", nfc)
 	}
@@ -724,29 +728,7 @@ func reloadKeepsNotifyingRule(o *Ob) {
 		}
 	}
 	o.Check(n == 1, "used-collect", "the set of receivers in use must be collected by one walk over the routing tree", nil)
-	wk := o.Fn("(*am/dispatch.Route).Walk")
-	{
-		var self ssa.CallInstruction
-		var rec ssa.CallInstruction
-		for _, in := range AllInstrs(wk) {
-			if c, ok := in.(*ssa.Call); ok {
-				if !c.Call.IsInvoke() && e.X(wk, c.Call.Value) == "p0" && len(c.Call.Args) == 1 && e.X(wk, c.Call.Args[0]) == "recv" {
-					self = c
-				}
-				if calleeName(&c.Call) == "(*am/dispatch.Route).Walk" {
-					rec = c
-				}
-			}
-		}
-		if o.Check(self != nil && rec != nil, "walk-shape", "Route.Walk must visit the node and walk its children", nil) {
-			o.Check(len((&Walk{Fn: wk, Barrier: IsInstr(self)}).FromEntry().Returns()) == 0, "walk-self", "Route.Walk can return without visiting the node", self)
-			o.Check(e.Arg(rec, 0) == "recv.Routes[i]" && e.Arg(rec, 1) == "p0", "walk-child-args", "Route.Walk must hand the same visitor to every child", rec)
-			if l := e.LoopOf(rec); o.Check(l != nil, "walk-loop", "children must be walked in a loop", rec) {
-				coll, _ := e.RangeOver(l)
-				o.Check(coll == "recv.Routes" && len(e.EarlyExits(l)) == 0 && !loopBackWithout(o, l, IsInstr(rec), nil), "walk-all", "Route.Walk must reach every child", rec)
-			}
-		}
-	}
+	routeWalkRule(o)
 	// started on every path once the old one is stopped
 	var run ssa.Instruction
 	for _, g := range e.GoSites(fn) {
@@ -779,4 +761,101 @@ func init() {
 		reloadKeepsNotifyingRule(o)
 		o.MinSites(3)
 	})
+}
+
+// routeWalkRule: Route.Walk hands every node of the tree to the visitor, as a recursion (visit the node, walk every
+// child) or as a work list (start with the node; visit what is taken off the list and put all its children on it).
+func routeWalkRule(o *Ob) {
+	e := o.E
+	wk := o.Fn("(*am/dispatch.Route).Walk")
+	var vis *ssa.Call
+	var rec ssa.CallInstruction
+	for _, in := range AllInstrs(wk) {
+		if c, ok := in.(*ssa.Call); ok {
+			if !c.Call.IsInvoke() && e.X(wk, c.Call.Value) == "p0" && len(c.Call.Args) == 1 {
+				o.Check(vis == nil, "walk-visit-once", "Route.Walk calls the visitor in more than one place", c)
+				vis = c
+			}
+			if calleeName(&c.Call) == "(*am/dispatch.Route).Walk" {
+				rec = c
+			}
+		}
+	}
+	if !o.Check(vis != nil, "walk-shape", "Route.Walk must hand the nodes to the visitor", fnFirst(wk)) {
+		return
+	}
+	node := e.X(wk, vis.Call.Args[0])
+	if rec != nil {
+		o.Check(node == "recv", "walk-self-arg", "Route.Walk must visit the node it is called on, visits "+node, vis)
+		o.Check(len((&Walk{Fn: wk, Barrier: IsInstr(vis)}).FromEntry().Returns()) == 0, "walk-self", "Route.Walk can return without visiting the node", vis)
+		o.Check(e.Arg(rec, 0) == "recv.Routes[i]" && e.Arg(rec, 1) == "p0", "walk-child-args", "Route.Walk must hand the same visitor to every child", rec)
+		if l := e.LoopOf(rec); o.Check(l != nil, "walk-loop", "children must be walked in a loop", rec) {
+			o.Check(e.CoversAll(l, "recv.Routes") && len(e.EarlyExits(l)) == 0 && !loopBackWithout(o, l, IsInstr(rec), nil), "walk-all", "Route.Walk must reach every child", rec)
+		}
+		return
+	}
+	// work list
+	outer := e.LoopOf(vis)
+	if !o.Check(outer != nil, "walk-shape", "Route.Walk neither recurses nor loops over a work list", vis) {
+		return
+	}
+	o.Check(!loopBackWithout(o, outer, IsInstr(vis), nil), "walk-self", "a node taken off the work list can go unvisited", vis)
+	o.Check(!leavesLoopAlive(e, outer) || len(e.EarlyExits(outer)) == 0, "walk-early-exit", "the work list loop can stop before the list is empty", vis)
+	// the list starts with the node itself
+	seeded := false
+	for _, in := range AllInstrs(wk) {
+		if st, ok := in.(*ssa.Store); ok && !outer.Blocks[st.Block().Index] && e.X(wk, st.Val) == "recv" {
+			if _, isIdx := st.Addr.(*ssa.IndexAddr); isIdx {
+				seeded = true
+			}
+		}
+	}
+	o.Check(seeded, "walk-seed", "the work list does not start with the node Walk is called on", vis)
+	// every child of the visited node is put on the list
+	var push ssa.Instruction
+	pushColl := node + ".Routes"
+	for _, in := range AllInstrs(wk) {
+		c, ok := in.(*ssa.Call)
+		if !ok || !outer.Blocks[c.Block().Index] {
+			continue
+		}
+		if b, isB := c.Call.Value.(*ssa.Builtin); !isB || b.Name() != "append" {
+			continue
+		}
+		for _, el := range VariadicElems(c) {
+			if nv, coll, ok := elemOfField(e, wk, el, "Routes"); ok && nv == vis.Call.Args[0] {
+				push, pushColl = c, coll
+			}
+		}
+		if len(c.Call.Args) == 2 && e.X(wk, c.Call.Args[1]) == node+".Routes" {
+			push = c // append(list, node.Routes...)
+		}
+	}
+	if o.Check(push != nil, "walk-push", "the children of a visited node are not put on the work list", vis) {
+		if l := e.LoopOf(push); l != nil && l != outer {
+			o.Check(e.CoversAll(l, pushColl) && len(e.EarlyExits(l)) == 0 && !loopBackWithout(o, l, IsInstr(push), nil), "walk-all", "a child can be left off the work list", push)
+		}
+		o.Check(!loopBackWithout(o, outer, IsInstr(push), nil) || e.LoopOf(push) != outer, "walk-push-skip", "the children of a visited node can be left off the work list", push)
+	}
+}
+
+// elemOfField: el is x.<field>[i] for some value x; returns x and the rendering of x.<field>.
+func elemOfField(e *Eng, fn *ssa.Function, el ssa.Value, field string) (ssa.Value, string, bool) {
+	u, ok := el.(*ssa.UnOp)
+	if !ok {
+		return nil, "", false
+	}
+	ia, ok := u.X.(*ssa.IndexAddr)
+	if !ok {
+		return nil, "", false
+	}
+	sl, ok := ia.X.(*ssa.UnOp)
+	if !ok {
+		return nil, "", false
+	}
+	fa, ok := sl.X.(*ssa.FieldAddr)
+	if !ok || fieldName(fa.X.Type(), fa.Field) != field {
+		return nil, "", false
+	}
+	return fa.X, e.X(fn, sl), true
 }
